@@ -50,6 +50,11 @@ def frame_zoo(rng):
     out.append(("generic", lambda: cf.CoordinateFrame(2, ("SPATIAL", "SPECTRAL"), (0, 1), unit=(u.m, u.nm), name="gen",
                                                       axes_names=("a", "b"), axis_physical_types=("custom:a", "custom:b")), 2))
     out.append(("generic/refpos", lambda: cf.CoordinateFrame(1, ("SPECTRAL",), (0,), unit=(u.nm,), name="genr", reference_position="BARYCENTER"), 1))
+    # names left blank (defaults must not be substituted on re-reading)
+    out.append(("celestial/blank-names", lambda: cf.CelestialFrame(reference_frame=coord.ICRS(), name="sky", unit=(u.deg, u.deg),
+                                                                  axes_names=("", "")), 2))
+    out.append(("frame2d/blank-names", lambda: cf.Frame2D(name="focal", axes_order=(0, 1), unit=(u.mm, u.mm), axes_names=None), 2))
+    out.append(("spectral/partly-blank", lambda: cf.SpectralFrame(axes_order=(0,), unit=(u.um,), name="spec", axes_names=("",)), 1))
     out.append(("name-only", lambda: "world", 2))
     return out
 
@@ -147,14 +152,22 @@ def roundtrip(w, mode, tmpdir, version=None):
     else:
         src = os.path.join(tmpdir, "rt.asdf")
         af.write_to(src)
-    with asdf.open(src, lazy_load=lazy, memmap=memmap) as f2:
-        w2 = f2["wcs"]
-        # force loading while the file is open, then detach
-        tree2 = asdf.AsdfFile({"wcs": w2})
-        buf2 = io.BytesIO()
-        tree2.write_to(buf2)
-        w2 = copy.deepcopy(w2)
+    # from here on the file exists: a failure is not a refusal to write but a file that cannot be read back
+    try:
+        with asdf.open(src, lazy_load=lazy, memmap=memmap) as f2:
+            w2 = f2["wcs"]
+            # force loading while the file is open, then detach
+            tree2 = asdf.AsdfFile({"wcs": w2})
+            buf2 = io.BytesIO()
+            tree2.write_to(buf2)
+            w2 = copy.deepcopy(w2)
+    except Exception as e:  # noqa
+        raise ReadBackError(f"{type(e).__name__}: {str(e)[:120]}") from e
     return w2, buf2.getvalue()
+
+
+class ReadBackError(Exception):
+    pass
 
 
 def yaml_part(b):
@@ -242,6 +255,9 @@ def run(ctx):
             tag = f"{fname}|{tname}|box={with_box}|{mode}|asdf={version}"
             try:
                 w2, tree_bytes = roundtrip(w, mode, tmpdir, version)
+            except ReadBackError as e:
+                problems.append((f"{tag}: the file was written but reading it back raised {e}", {"object": tag}, None))
+                continue
             except Exception as e:  # noqa
                 # a refusal with an error is allowed by the property; record it
                 ctx.case(key=tag, nontrivial=False, kind="refused/" + type(e).__name__, sample={"object": tag, "refused": str(e)[:80]})
@@ -267,6 +283,9 @@ def run(ctx):
                         key = "C09/generic-refpos-dropped"
                     elif d1.get("type") == "StokesFrame" and set(diff) <= {"axes_names", "phys"}:
                         key = "C09/stokes-fields-dropped"
+                    elif (diff == ["reference_position"] and d1.get("type") == "SpectralFrame" and version == "1.5.0"
+                          and d1.get("reference_position") is None and str(d2.get("reference_position")).upper() == "GEOCENTER"):
+                        key = "C09/legacy-standard-refpos-default"     # schema default filled in by asdf for standards <= 1.5.0
                     problems.append((f"{tag}: frame '{d1.get('name') if isinstance(d1, dict) else d1}' differs after the round trip in {diff}: "
                                      f"{[(k, d1.get(k), d2.get(k)) for k in diff][:3]}", {"object": tag}, key))
             if bad:
@@ -288,7 +307,7 @@ def run(ctx):
             try:
                 c = fn(w)
             except Exception as e:  # noqa
-                ctx.notes.append(f"{how} refused for {fname}/{tname}: {type(e).__name__}")
+                problems.append((f"{fname}|{tname}: {how} of the WCS raised {type(e).__name__}: {str(e)[:100]}", {"object": f"{fname}|{tname}"}, None))
                 continue
             if evaluate_all(c, pts) != evaluate_all(w, pts) or list(c.available_frames) != list(w.available_frames):
                 problems.append((f"{fname}|{tname}: {how} is not equivalent to the original", {}, None))
